@@ -140,6 +140,7 @@ pub struct Outcome {
     pub body: Option<Vec<u8>>,
 }
 
+#[allow(clippy::ptr_arg)]
 fn fnd(props: &[&'static str], key: impl Into<String>, msg: impl Into<String>) -> Finding {
     Finding {
         props: props.to_vec(),
@@ -161,6 +162,8 @@ pub struct Exec {
     flushed_upto: usize,
     /// identity coding: delivered plain bytes; gzip: delivered coded bytes
     pub delivered: Vec<u8>,
+    /// incremental independent decoder of the delivered frames (gzip coding only)
+    gzs: gzip::GzStream,
     pub term: Term,
     body_gone: bool,
     /// raw writer: bytes accepted since the last chunk hand-over (flush or full chunk)
@@ -230,6 +233,7 @@ impl Exec {
             pos: 0,
             flushed_upto: 0,
             delivered: Vec::new(),
+            gzs: gzip::GzStream::new(),
             term: Term::Live,
             body_gone: false,
             buffered: 0,
@@ -245,18 +249,17 @@ impl Exec {
         })
     }
 
-    /// Plain bytes the consumer can decode from what was delivered so far.
-    fn plain_delivered(&mut self) -> Option<Vec<u8>> {
+    /// Number of plain bytes the consumer can decode from what was delivered so far.
+    fn plain_len(&mut self) -> Option<usize> {
         if !self.gz {
-            return Some(self.delivered.clone());
+            return Some(self.delivered.len());
         }
-        match gzip::decode_prefix(&self.delivered) {
-            Ok(d) => Some(d.plain),
-            Err(e) => {
-                self.out.push(fnd(&["C09", "C17"], "gzip-undecodable", format!("delivered frames are not a gzip stream prefix: {e}")));
-                None
-            }
+        if let Some(e) = &self.gzs.error {
+            let e = e.clone();
+            self.out.push(fnd(&["C09", "C17"], "gzip-undecodable", format!("delivered frames are not a gzip stream prefix: {e}")));
+            return None;
         }
+        Some(self.gzs.plain.len())
     }
 
     pub fn sample(&mut self) {
@@ -384,9 +387,14 @@ impl Exec {
                     if d > self.accepted.len() || self.delivered[d - v.len()..] != self.accepted[d - v.len()..d] {
                         self.out.push(fnd(&["C08", "C11"], "not-a-prefix", format!("delivered bytes are not a prefix of the accepted bytes (delivered {d}, accepted {})", self.accepted.len())));
                     }
-                } else if let Some(plain) = self.plain_delivered() {
-                    if plain.len() > self.accepted.len() || plain[..] != self.accepted[..plain.len()] {
-                        self.out.push(fnd(&["C09", "C11"], "gzip-not-a-prefix", format!("decoded bytes are not a prefix of the written bytes (decoded {}, written {})", plain.len(), self.accepted.len())));
+                } else {
+                    let before = self.gzs.plain.len();
+                    self.gzs.feed(v);
+                    if self.plain_len().is_some() {
+                        let plain = &self.gzs.plain;
+                        if plain.len() > self.accepted.len() || plain[before..] != self.accepted[before..plain.len()] {
+                            self.out.push(fnd(&["C09", "C11"], "gzip-not-a-prefix", format!("decoded bytes are not a prefix of the written bytes (decoded {}, written {})", plain.len(), self.accepted.len())));
+                        }
                     }
                 }
             }
@@ -397,10 +405,10 @@ impl Exec {
                     self.out.push(fnd(&["C11"], "pending-after-abort", "poll returned Pending although an abort error is pending (nobody will wake the consumer again)".to_string()));
                 } else if self.term == Term::WriterDropped {
                     self.out.push(fnd(&["C08", "C09", "C10"], "pending-after-writer-drop", "poll returned Pending after the writer was dropped".to_string()));
-                } else if let Some(plain) = self.plain_delivered() {
+                } else if let Some(plain_len) = self.plain_len() {
                     // availability: everything flushed must have been obtainable before Pending
-                    if plain.len() < self.flushed_upto {
-                        self.out.push(fnd(&[if self.gz { "C09" } else { "C08" }], "flushed-not-available", format!("poll returned Pending with only {} of the {} bytes accepted before the last successful flush delivered", plain.len(), self.flushed_upto)));
+                    if plain_len < self.flushed_upto {
+                        self.out.push(fnd(&[if self.gz { "C09" } else { "C08" }], "flushed-not-available", format!("poll returned Pending with only {} of the {} bytes accepted before the last successful flush delivered", plain_len, self.flushed_upto)));
                     }
                 }
             }
@@ -414,7 +422,7 @@ impl Exec {
                             if self.delivered != self.accepted {
                                 self.out.push(fnd(&["C08"], "clean-end-incomplete", format!("clean end after {} bytes, {} were accepted", self.delivered.len(), self.accepted.len())));
                             }
-                        } else if let Err(e) = gzip::verify_member(&self.delivered, &self.accepted) {
+                        } else if let Err(e) = self.gzs.verify_complete(&self.accepted) {
                             self.out.push(fnd(&["C09", "C17"], "gzip-member", format!("body after writer drop is not one valid gzip member of the written bytes: {e}")));
                         }
                     }
@@ -434,6 +442,12 @@ impl Exec {
             }
         }
         Some(o)
+    }
+
+    /// Generous bound on the number of frames that can legitimately be queued: every frame is
+    /// non-empty, and the coded size is at most the plain size plus gzip framing overhead.
+    pub fn frame_horizon(&self) -> usize {
+        4 * self.accepted.len() + 100_000
     }
 
     pub fn poll_until_pending(&mut self, max: usize) {
@@ -499,7 +513,7 @@ impl Exec {
             Op::P => {
                 self.poll_op();
             }
-            Op::PP => self.poll_until_pending(10_000),
+            Op::PP => self.poll_until_pending(self.frame_horizon()),
             Op::A => self.abort_op(),
             Op::DW => self.drop_writer(),
             Op::DB => self.drop_body(),
@@ -556,6 +570,11 @@ impl Exec {
 }
 
 /// Executes one history (plus the epilogue that drives it to its terminal event).
+fn dedup_findings(v: Vec<Finding>) -> Vec<Finding> {
+    let mut seen = std::collections::HashSet::new();
+    v.into_iter().filter(|f| seen.insert(f.key.clone())).collect()
+}
+
 pub fn execute(cfg: &Config, ops: &[Op], extra_polls: usize) -> Outcome {
     let mut x = match Exec::new(cfg, "GET") {
         Ok(x) => x,
@@ -590,7 +609,8 @@ pub fn execute(cfg: &Config, ops: &[Op], extra_polls: usize) -> Outcome {
     }
     if x.p.is_some() {
         x.sample();
-        x.poll_until_pending(10_000);
+        let hz = x.frame_horizon();
+        x.poll_until_pending(hz);
         if x.terminal_seen.is_none() && x.term != Term::Live {
             x.out.push(fnd(&["C08", "C09", "C11"], "no-terminal", "no terminal event although the writer is gone".to_string()));
         }
@@ -623,7 +643,7 @@ pub fn execute(cfg: &Config, ops: &[Op], extra_polls: usize) -> Outcome {
     let repr = format!("{:?}|{:?}|{:?}|{:?}", x.log, x.delivered, x.samples, x.terminal_seen);
     let body = if matches!(x.terminal_seen, Some(Obs::End)) { Some(x.delivered.clone()) } else { None };
     Outcome {
-        findings: std::mem::take(&mut x.out),
+        findings: dedup_findings(std::mem::take(&mut x.out)),
         states,
         labels,
         repr,
@@ -711,14 +731,21 @@ pub struct Sweep<'a> {
 }
 
 fn report(prop: &str, cfg: &Config, ops: &[Op], extra_polls: usize, o: &Outcome, st: &mut Stats, order: u64) {
+    let mut seen: Vec<&str> = Vec::new();
+    let mut checked = false;
     for f in &o.findings {
-        if !f.props.contains(&prop) {
+        if !f.props.contains(&prop) || seen.contains(&f.key.as_str()) {
             continue;
         }
-        let again = execute(cfg, ops, extra_polls);
-        if again.repr != o.repr {
-            eprintln!("MACHINERY ERROR: non-deterministic replay of history {ops:?} ({cfg:?})");
-            std::process::exit(2);
+        seen.push(&f.key);
+        if !checked {
+            // determinism: the same history must give the same observation again
+            let again = execute(cfg, ops, extra_polls);
+            if again.repr != o.repr {
+                eprintln!("MACHINERY ERROR: non-deterministic replay of history {ops:?} ({cfg:?})");
+                std::process::exit(2);
+            }
+            checked = true;
         }
         st.violation(order, f.key.clone(), f.msg.clone(), || {
             json!({"engine": "stream_mc", "config": cfg.to_json(), "ops": ops.iter().map(|o| o.to_json()).collect::<Vec<_>>(), "extra_polls": extra_polls})
@@ -875,8 +902,11 @@ pub fn run_c09(run: &mut Run) -> Stats {
         (Payload::Rep, vec![0, 1, 1666, 5000]),
         (Payload::Mixed, tier.pick(vec![0, 1, 2000], vec![0, 1, 23_333, 70_000])),
     ];
+    // large incompressible writes: the encoder's 32 KiB output buffer fills and `write` returns
+    // short counts, which the BodyWriter must pass on faithfully
+    let big: Vec<usize> = vec![1, 40_000, 200_000];
     let depth = tier.pick(3, 4);
-    run.rule = format!("every history over {{write(n), flush, poll, poll-until-pending, drop-writer}} of depth {depth} (+ epilogue) with Accept-Encoding: gzip, levels 1..9 x chunk sizes x payload classes (incompressible / 'a'-run / mixed; n in {{0, 1, 1/3, all}} of the class size); oracle = independent RFC 1952 parser + own CRC-32 + miniz_oxide streaming inflater fed only the frames delivered so far: at every Pending after a successful flush everything written before it decodes; after writer drop exactly one member, CRC and ISIZE match the model's bytes, nothing trails; frames non-empty. non-trivial = distinct (config, history)");
+    run.rule = format!("every history over {{write(n), flush, poll, poll-until-pending, drop-writer}} of depth {depth} (+ epilogue) with Accept-Encoding: gzip, levels 1..9 x chunk sizes x payload classes (incompressible / 'a'-run / mixed; n in {{0, 1, 1/3, all}} of the class size), plus large incompressible write / write_all calls of 40 000 and 200 000 bytes (the encoder then reports short writes) at depth 3; oracle = independent RFC 1952 parser + own CRC-32 + miniz_oxide streaming inflater fed only the frames delivered so far: at every Pending after a successful flush everything written before it decodes; after writer drop exactly one member, CRC and ISIZE match the model's bytes, nothing trails; frames non-empty. non-trivial = distinct (config, history)");
     run.bounds = json!({"levels": levels, "chunk_sizes": chunks, "depth": depth, "payload_classes": 3});
     let mut cfgs = Vec::new();
     for &c in &chunks {
@@ -889,13 +919,20 @@ pub fn run_c09(run: &mut Run) -> Stats {
             }
         }
     }
+    for &c in &tier.pick(vec![7usize, 65536], vec![1, 7, 4096, 65536]) {
+        for &l in &tier.pick(vec![1u32, 6], vec![1, 2, 6, 9]) {
+            cfgs.push((Config { chunk: c, level: l, accept: Some("gzip".into()), payload: Payload::Rand }, big.clone()));
+        }
+    }
     run.extra.insert("configs".into(), json!(cfgs.len()));
     let prop = run.prop.clone();
     let dump = tier == Tier::Thorough;
     let bodies = std::sync::Mutex::new(Vec::<Vec<u8>>::new());
     let total = par_for(cfgs.len() as u64, threads(), |i, st| {
         let (cfg, sizes) = &cfgs[i as usize];
-        let sw = Sweep { prop: &prop, cfg: cfg.clone(), alpha: alphabet(cfg.chunk, false, false, false, Some(sizes.clone())), depth, extra_polls: 1, shallow: Default::default() };
+        let with_wa = sizes.iter().any(|n| *n >= 40_000);
+        let d = if with_wa { depth.min(3) } else { depth };
+        let sw = Sweep { prop: &prop, cfg: cfg.clone(), alpha: alphabet(cfg.chunk, with_wa, false, false, Some(sizes.clone())), depth: d, extra_polls: 1, shallow: Default::default() };
         let mut order = i << 40;
         let mut local: Vec<Vec<u8>> = Vec::new();
         let mut h = Vec::new();
